@@ -80,6 +80,7 @@ type Path struct {
 	mapReverse bool // every map range runs in reverse insertion order (no forking)
 	ranges     map[string][2]int64
 	finite     map[int]bool // term ids of BV64 vars known to be finite floats
+	yamlNoWrap bool         // yaml.v2's process-global FutureLineWrap switch, per path
 	merge      *mergeCtx
 	cli        *cliState
 	violTerm   *Term            // the negated assertion that was found satisfiable
@@ -615,6 +616,10 @@ func (p *Path) Assume(c *Term) {
 func (p *Path) Assert(c *Term, msg string) {
 	p.oblig++
 	c = p.canon(c)
+	// an assertion that is violated whatever the values (constant false, or the negation of a
+	// literal already on the path) has no violation term of its own: forget the one left by an
+	// earlier, discharged assertion (realise() would assert it and find the path unrealisable)
+	p.violTerm = nil
 	if c.IsConst() {
 		if c.val == 1 {
 			p.dischargd++
@@ -643,11 +648,6 @@ func (p *Path) Assert(c *Term, msg string) {
 	}
 	neg := p.tt().Not(c)
 	p.violTerm = neg
-	if v, ok := p.evalBool(neg); ok && v {
-		p.log = append(p.log, Event{Kind: 's', Val: 0})
-		p.pos = len(p.log)
-		p.violation("assert", msg)
-	}
 	res, m := p.query(neg)
 	switch res {
 	case "unsat":
@@ -1056,58 +1056,117 @@ func (p *Path) realise() bool {
 	tt := p.tt()
 	w.sync(p.pc)
 	w.solver.Push()
-	defer w.solver.Pop(1)
+	depth := 1
+	defer func() { w.solver.Pop(depth) }()
 	if p.violTerm != nil {
 		w.solver.Assert(p.violTerm)
+	}
+	if os.Getenv("GOSYM_DEBUG_REAL") != "" {
+		r := w.solver.Check()
+		_, okm := p.realHashes(p.model)
+		v, okv := p.violTerm.Eval(p.model)
+		fmt.Fprintf(os.Stderr, "realise: start pc+viol=%s realHashes=%v viol under model=%v/%v npc=%d\n", r, okm, v, okv, len(p.pc))
 	}
 	m := p.model
 	pinned := map[string]bool{}
 	for _, a := range p.apps {
-		if a.h.IsConst() {
+		if a.h.IsConst() || pinned[a.h.name] {
 			continue
 		}
 		vs := map[*Term]bool{}
 		for _, t := range a.pre {
 			t.Vars(vs)
 		}
-		bs := make([]byte, len(a.pre))
+		var fresh []*Term // leaves of this preimage that are not pinned yet
 		for v := range vs {
 			if !pinned[v.name] {
-				pinned[v.name] = true
-				val, ok := v.Eval(m)
-				if !ok {
+				fresh = append(fresh, v)
+			}
+		}
+		sort.Slice(fresh, func(i, j int) bool { return fresh[i].name < fresh[j].name })
+		// Pin the fresh leaves to the model's values and the code to the real FNV-1a code. The
+		// real code may contradict an order (or equality) the path needs; then other values
+		// are tried for the fresh leaves (an order between two codes holds for about every
+		// second choice), up to a fixed number of attempts.
+		ok := false
+		for try := 0; try < 32; try++ {
+			w.solver.Push()
+			depth++
+			var block []*Term
+			for _, v := range fresh {
+				val, has := v.Eval(m)
+				if !has {
 					return false
 				}
 				if v.w == SortBool {
 					if val == 1 {
 						w.solver.Assert(v)
+						block = append(block, tt.Not(v))
 					} else {
 						w.solver.Assert(tt.Not(v))
+						block = append(block, v)
 					}
 				} else {
-					w.solver.Assert(tt.Eq(v, tt.BV(v.w, val)))
+					c := tt.Eq(v, tt.BV(v.w, val))
+					w.solver.Assert(c)
+					block = append(block, tt.Not(c))
 				}
 			}
-		}
-		for i, t := range a.pre {
-			v, ok := t.Eval(m)
-			if !ok {
+			bs := make([]byte, len(a.pre))
+			for i, t := range a.pre {
+				v, has := t.Eval(m)
+				if !has {
+					return false
+				}
+				bs[i] = byte(v)
+			}
+			w.solver.Assert(tt.Eq(a.h, tt.BV(64, fnv64a(bs))))
+			if w.solver.Check() == "sat" {
+				nm, err := w.solver.GetModel(p.vars)
+				if err != nil {
+					return false
+				}
+				m = nm
+				ok = true
+				break
+			}
+			w.solver.Pop(1)
+			depth--
+			if os.Getenv("GOSYM_DEBUG_REAL") != "" {
+				fmt.Fprintf(os.Stderr, "realise: app %s site %s try %d unsat, fresh=%d\n", a.h.name, a.site, try, len(fresh))
+			}
+			if len(block) == 0 {
 				return false
 			}
-			bs[i] = byte(v)
+			// another value for the fresh leaves of this application
+			w.solver.Assert(tt.Or(block...))
+			if r := w.solver.Check(); r != "sat" {
+				if os.Getenv("GOSYM_DEBUG_REAL") != "" {
+					fmt.Fprintf(os.Stderr, "realise: blocking %s gives %s\n", tt.Or(block...).SMT(), r)
+					for _, c := range p.pc {
+						if x := c.SMT(); len(x) < 300 {
+							fmt.Fprintf(os.Stderr, "   pc %s\n", x)
+						}
+					}
+					if p.violTerm != nil {
+						fmt.Fprintf(os.Stderr, "   viol %s\n", p.violTerm.SMT())
+					}
+				}
+				return false
+			}
+			nm, err := w.solver.GetModel(p.vars)
+			if err != nil {
+				return false
+			}
+			m = nm
 		}
-		if !pinned[a.h.name] {
-			pinned[a.h.name] = true
-			w.solver.Assert(tt.Eq(a.h, tt.BV(64, fnv64a(bs))))
-		}
-		if w.solver.Check() != "sat" {
+		if !ok {
 			return false
 		}
-		nm, err := w.solver.GetModel(p.vars)
-		if err != nil {
-			return false
+		for _, v := range fresh {
+			pinned[v.name] = true
 		}
-		m = nm
+		pinned[a.h.name] = true
 	}
 	if m2, ok := p.realHashes(m); ok {
 		p.model = m2
